@@ -36,6 +36,7 @@ func jsonCheck(r *core.Run, prop string) int {
 		params = map[string]any{"values": 400, "docs": 200}
 	}
 	cases := specgen.SchemaCases(r.Seed, n, true)
+	cases = append(cases, specgen.SchemaFixedCases()...)
 	res, err := RunDriver(r, vgen, "jsonmod", cases, DriverOpts{Modes: []string{"json"}, Params: params})
 	if err != nil {
 		r.Inconclusive("%v", err)
